@@ -288,6 +288,13 @@ def special_dep_scenarios(failing=False):
             out.append(sc(f"special:pre-on-output:{''.join(order)}:f{fb}", "special:pre-on-output" + (":fail" if fb else ""), [[XP("xp", body)]]))
     jobs = [J("a", 1, cls="jobout"), J("b", 2, cls="jobout"), J("c", 3, [("a", "oin"), ("b", "pre-o-on-oin")])]
     out.append(sc("special:pre-output-on-output", "special:pre-on-output", [[XP("xp", jobs)]]))
+    # a configuration object shared by several submissions: used as a parameter before AND after a task marks a configuration below
+    # it as its output (dep(self.leafp)): the later user depends on that task, the earlier one does not
+    for fm in ((0, 1) if failing else (0,)):
+        for early in (True, False):
+            body = ([dict(J("e", 1), shared="cfg")] if early else []) + [J("m", 2, cls="jobmark", code=fm), J("c", 3, [("m", "cfg-shared")]), J("z", 4),
+                                                                       J("d", 5, [("c", "up")])]
+            out.append(sc(f"special:shared-marked:{'early' if early else 'late'}:f{fm}", "special:shared-marked" + (":fail" if fm else ""), [[XP("xp", body)]]))
     # a task that defines task_outputs, used as a task-typed value itself (not through its output), alone or next to its output
     for via in ("up-task", "ups-task", "holder-task", "holder2-task", "pre-task", "init-task"):
         for fa in ((0, 1) if failing else (0,)):
